@@ -21,7 +21,7 @@ def LogInv (d : Drv) : Prop := scanLog d.log 0 none = some (d.nextTx, d.cur.map 
 
 def scan1 (e : String × Nat) (r : Nat × Option Nat) : Option (Nat × Option Nat) := scanLog [e] r.1 r.2
 
-theorem scanLog_append' (l : List (String × Nat)) (e : String × Nat) (n : Nat) (o : Option Nat) :
+theorem scanLog_append_aux (l : List (String × Nat)) (e : String × Nat) (n : Nat) (o : Option Nat) :
     scanLog (l ++ [e]) n o = (scanLog l n o).bind (scan1 e) := by
   induction l generalizing n o with
   | nil => simp [scanLog, scan1]
@@ -38,7 +38,7 @@ theorem scanLog_append' (l : List (String × Nat)) (e : String × Nat) (n : Nat)
 
 theorem scanLog_append (l : List (String × Nat)) (e : String × Nat) (n : Nat) (o : Option Nat) :
     scanLog (l ++ [e]) n o = (scanLog l n o).bind fun r => scanLog [e] r.1 r.2 :=
-  scanLog_append' l e n o
+  scanLog_append_aux l e n o
 
 theorem logInv_init : LogInv {} := by simp [LogInv, scanLog]
 
